@@ -44,7 +44,7 @@ def _work(job):
     _quiet()
     from . import racedriver as rd
     try:
-        tmpl = rd.Template(job["kind"], {"a": 1})
+        tmpl = rd.Template(job["kind"], {"a": 1}, idle=job.get("idle", False))
         out = []
         try:
             for (opa, opb) in job["pairs"]:
@@ -286,8 +286,10 @@ def run(prop, tier, seed, replay=None):
                 # (the late-open variant on a part of the pairs in the quick tier)
                 use = pairs if (shared != "late" or not quick) else pairs[:30]
                 for i in range(0, len(use), chunk):
+                    # (every other chunk on a collection that has been idle for an hour)
                     jobs.append({"kind": kind, "shared": shared, "pairs": use[i:i + chunk],
-                                 "deep": 0 if quick else 12, "seed": rng.randrange(1 << 30)})
+                                 "deep": 0 if quick else 12, "seed": rng.randrange(1 << 30),
+                                 "idle": (i // chunk) % 2 == 1})
         # the same through HTTP: requests to a real aiohttp server whose updates run in its
         # thread pool, gated at the same file-system steps
         hp = [(a, b) for (a, b) in pairs if a["t"] != "read" and b["t"] != "read"]
